@@ -88,6 +88,14 @@ def main():
                 res[c] = {"detected": bool(viol), "clauses": sorted(set(viol))[:8], "summary": summ[-1] if summ else r.stdout[-300:],
                           "machinery_failure": mach, "wall_s": round(time.time() - t0, 1)}
                 print(sid, c, "DETECTED" if viol else ("MACHINERY-FAILURE" if mach else "MISSED"), sorted(set(viol))[:4])
+            d0 = os.path.join(VERIF, "seeded", sid, "meta.json")
+            if os.path.exists(d0):
+                try:
+                    old = json.load(open(d0)).get("checks", {})
+                    for c0, v0 in old.items():
+                        res.setdefault(c0, v0)
+                except Exception:
+                    pass
             meta["checks"] = res
             meta["needs"] = open(notes).read()[:1500] if os.path.exists(notes) else ""
             d = os.path.join(VERIF, "seeded", sid)
